@@ -5,6 +5,7 @@
 mod engine;
 mod gen;
 mod props;
+mod sched;
 
 use engine::{supervisor, Tier};
 use std::path::PathBuf;
